@@ -816,10 +816,107 @@ def rule_prefix(ctx):
     return res.finish(2)
 
 
+def rule_restartstate(ctx):
+    """Every restart of `fit` is a fresh run: what a restart's iteration loop tests is set up inside the restart.  A flag
+    declared before the restart loop, assigned only inside the iteration loop and never reset at the top of a restart is
+    still raised when the next restart begins - which then runs no iteration and lets its raw initial centroids compete."""
+    from .c17 import for_loops
+    res = RuleResult("R-C09-restartstate", "no local declared before the restart loop of KMeans::fit is assigned only inside the inner iteration loop (state that survives into the next restart)")
+    F = ctx.facts()
+    fns = [f for f in kmeans_fns(F) if f["d"]["name"] == "fit" and (f["d"].get("self_adt") or "").endswith("KMeansValidParams")]
+    if not fns:
+        res.missing_anchor("<KMeansValidParams as Fit>::fit")
+    for fn in fns:
+        c = fn["crate"]
+        key = fn_key(fn)
+        outer = [(it, pat, body, node) for it, pat, body, node in for_loops(fn["body"]) if any(y.get("k") == "Loop" for y in walk(body))]
+        if not outer:
+            res.instance("%s : restart loop" % key)
+            res.undecided("%s : restart-loop" % key, "no `for` loop with an inner iteration loop (fail closed)", fn_loc(fn))
+            continue
+        it, pat, body, node = outer[0]
+        res.instance("%s : restart loop at line %s" % (key, node.get("ln")))
+        declared_in = set()
+        for y in walk(body):
+            if y.get("k") in ("LetStmt", "Let"):
+                declared_in |= {b["local"] for b in pat_bindings(y["pat"])}
+        inner_loops = [y for y in walk(body) if y.get("k") == "Loop"]
+        inner_ids = set()
+        for lp in inner_loops:
+            for z in walk(lp):
+                inner_ids.add(id(z))
+        stale = None
+        for y in walk(body):
+            if y.get("k") == "Assign" and id(y) in inner_ids:
+                l0 = peel_refs(y["l"])
+                if l0.get("k") == "Path" and "local" in l0 and l0["local"] not in declared_in:
+                    loc = l0["local"]
+                    elsewhere = [z for z in walk(body) if z.get("k") in ("Assign", "AssignOp") and id(z) not in inner_ids and peel_refs(z["l"]).get("local") == loc]
+                    read_inner = any(z.get("k") == "Path" and z.get("local") == loc and id(z) in inner_ids and z is not l0 for lp in inner_loops for z in walk(lp))
+                    if not elsewhere and read_inner:
+                        stale = (y, l0.get("name"))
+        if stale:
+            res.violate("%s : state-survives-restart:%s" % (key, stale[1]), "`%s` is declared before the restart loop, assigned only inside the iteration loop (`%s`) and tested there: once raised it stays raised for every later restart, whose iteration loop then never runs" % (stale[1], Render(c).e(stale[0])[:40]), fn_loc(fn, stale[0].get("ln")))
+        else:
+            res.ok()
+    return res.finish(1)
+
+
+def rule_initdispatch(ctx):
+    """`KMeansInit::run` dispatches on the initialiser the caller chose: the arm of a variant calls that variant's routine.
+    (K-means|| seeds one generator per rayon job and is exempt from the determinism claim - an arm of another variant that
+    hands over to it under some condition carries the exemption into the default configuration.)"""
+    res = RuleResult("R-C09-initdispatch", "every arm of KMeansInit::run calls the initialisation routine of its own variant")
+    F = ctx.facts()
+    fns = [f for f in F.all_fns() if f["d"]["krate"] == "linfa_clustering" and f["d"]["name"] == "run" and (f["d"].get("self_adt") or "").endswith("KMeansInit")]
+    if not fns:
+        res.missing_anchor("KMeansInit::run")
+    norm = lambda s_: s_.replace("_", "").lower()
+    for fn in fns:
+        c = fn["crate"]
+        key = fn_key(fn)
+        m = next((y for y in walk(fn["body"]) if y.get("k") == "Match" and y.get("src", "Normal") == "Normal"), None)
+        if m is None:
+            res.instance("%s : dispatcher" % key)
+            res.undecided("%s : dispatcher" % key, "no match over the initialiser (fail closed)", fn_loc(fn))
+            continue
+        variants = []
+        for a in m["arms"]:
+            p_ = a["pat"]
+            while p_.get("k") == "Ref":
+                p_ = p_["pat"]
+            v = (c.dfn(p_.get("def")) or {}).get("name") if p_.get("k") in ("Path", "TupleStruct", "Struct") else None
+            variants.append(v)
+        names = [v for v in variants if v]
+        for a, v in zip(m["arms"], variants):
+            if not v:
+                continue
+            called = []
+            for y in walk(a["body"]):
+                if y.get("k") == "Call" and strip(y["f"]).get("k") == "Path":
+                    d = c.dfn(strip(y["f"]).get("def")) or {}
+                    if d.get("krate") == "linfa_clustering" and d.get("name"):
+                        called.append(d["name"])
+            if not called:
+                continue
+            res.instance("%s : arm %s calls %s" % (key, v, called))
+            other = [g for g in called for w in names if w != v and norm(g).startswith(norm(w)) and not norm(g).startswith(norm(v))]
+            if other:
+                res.violate("%s : arm-calls-sibling-routine:%s" % (key, v), "the `%s` arm calls `%s`, the routine of another initialiser: choosing one initialiser silently runs another (and k-means||, which is not reproducible across thread pools, can reach the default configuration this way)" % (v, other[0]), fn_loc(fn, a["body"].get("ln")))
+            else:
+                res.ok()
+    return res.finish(3)
+
+
+def _blockmean_rule():
+    from . import blockmean
+    return blockmean.make_rule("R-C09-blockmean", lambda f: f["d"]["krate"] == "linfa_clustering" and "k_means" in f["d"]["path"], "the k-means centroid updates")
+
+
 def rules(tier):
     from . import carry, c04
     from . import precision
-    return [rule_argmin, rule_best, rule_fresh, rule_init, rule_memorder, rule_incumbent, c07.rule_degree, rule_scanexit, rule_counts,
+    return [rule_restartstate, rule_initdispatch, _blockmean_rule(), rule_argmin, rule_best, rule_fresh, rule_init, rule_memorder, rule_incumbent, c07.rule_degree, rule_scanexit, rule_counts,
             carry.make_clone_rule("R-C09-clone", {"linfa_clustering"}, 10), carry.make_setter_rule("R-C09-override", {"linfa_clustering"}, 10), c04.make_carry_rule("R-C09-carry", {"KMeansParams"}, 4),
             precision.make_rule("R-C09-precision", lambda f: f["d"]["krate"] == "linfa_clustering" and any(x in f["d"]["path"] + " " + (f["d"].get("self_adt") or "") for x in ("k_means", "KMeans")), 30, "linfa-clustering k_means"),
             carry.make_accessor_rule("R-C09-accessor", {"linfa_clustering"}, 10), carry.make_ctor_rule("R-C09-ctor", {"linfa_clustering"}, 4), rule_prefix]
